@@ -384,6 +384,12 @@ def work_c08(prop, tier, seed, widx, nworkers):
                     o2 = rng.choice(sorted(inner))
                     case['outputs'] = [o2 if rng.random() < 0.5 else None for _ in runs]
                     acc.counters['cases_with_second_chart'] = acc.counters.get('cases_with_second_chart', 0) + 1
+            if rng.random() < 0.35:
+                # a recording artifact store: every run's saves must carry that run's id and values
+                case['store'] = True
+                case['write_once'] = False
+                case['gate_saves'] = rng.choice([0.0, 0.5])
+                acc.counters['cases_with_store'] = acc.counters.get('cases_with_store', 0) + 1
             res = cases.run_case(case, built)
             for f in res['findings']:
                 if 'C08' not in f['prop']:
